@@ -54,5 +54,7 @@ with open(os.path.join(V, "benign", "RESULTS.md"), "w") as f:
     f.write("# Property-preserving changes: every check must stay silent\n\nWritten by `lib/benignregress.py` (each change: the repository's tests of the touched packages, then `./check <ID> quick` of its own property and of every property anchored in the files it touches, against a scratch copy with the change applied).\n\n| change | files | checks run | verdict |\n|---|---|---|---|\n")
     for name, ids, verdict, detail in rows:
         m = json.load(open(os.path.join(V, "benign", name, "meta.json")))
+        if m.get("triage") and verdict != "silent":
+            verdict += ": " + m["triage"]
         f.write("| %s | %s | %s | %s |\n" % (name, ", ".join(m.get("files_changed", []))[:160], detail, verdict))
 print(sum(1 for r in rows if r[2] == "silent"), "of", len(rows), "silent")
